@@ -90,6 +90,24 @@ def err_handling(body, call, _fate=None):
     if 'PROPAGATED' in k:
         return 'PROPAGATED', ''
     if 'MATCHED' in k:
+        # every path from an Err arm to a return must log the error or return an Err
+        def handles(x):
+            c = body.call_at(x)
+            if c is not None and (c.matches(LOG_CALL) or (c.dest[0] == 0 and c.matches(r'FromResidual.*>::from_residual$'))):
+                return True
+            for s_ in body.blocks[x]['stmts']:
+                if s_['p'][0] == 0 and not s_['p'][1] and s_['rv']['k'] == 'agg' and s_['rv'].get('variant') == 'Err':
+                    return True
+                if s_['p'][0] == 0 and not s_['p'][1] and s_['rv']['k'] == 'use':
+                    return True       # the matched value itself is returned
+            return False
+        partial = None
+        for e in fate.err_arm_blocks:
+            okp, off = body.must_pass(e, handles)
+            if not okp:
+                partial = off
+        if fate.err_arm_blocks and partial is not None and ('LOGGED' in k or any('Err' in return_variants_from(body, e) for e in fate.err_arm_blocks)):
+            return 'HANDLED-ARM', 'on some path from the Err arm (return at bb%s, line %s) the error is neither logged nor returned' % (partial, body.blocks[partial]['term']['line'])
         if 'LOGGED' in k:
             return 'LOGGED', ''
         for e in fate.err_arm_blocks:
